@@ -27,6 +27,8 @@ def AllSkip : Expr → Bool
   | .backtrack _ => true
   | .fail => true
   | .py _ => true
+  | .tagged e _ => AllSkip e
+  | .optable pre o m post inf => AllSkipList pre && AllSkip o && AllSkipList m && AllSkipList post && AllSkipList inf
 def AllSkipList : List Expr → Bool
   | [] => true
   | x :: xs => AllSkip x && AllSkipList xs
@@ -53,6 +55,9 @@ def RefsBelow (k : Nat) : Expr → Bool
   | .backtrack _ => true
   | .fail => true
   | .py _ => true
+  | .tagged e _ => RefsBelow k e
+  | .optable pre o m post inf =>
+    RefsBelowList k pre && RefsBelow k o && RefsBelowList k m && RefsBelowList k post && RefsBelowList k inf
 def RefsBelowList (k : Nat) : List Expr → Bool
   | [] => true
   | x :: xs => RefsBelow k x && RefsBelowList k xs
@@ -78,6 +83,10 @@ theorem allSkip_setSkip : ∀ e : Expr, AllSkip (setSkip e) = true
   | .backtrack _ => by simp [setSkip, AllSkip]
   | .fail => by simp [setSkip, AllSkip]
   | .py _ => by simp [setSkip, AllSkip]
+  | .tagged e _ => by simp [setSkip, AllSkip, allSkip_setSkip e]
+  | .optable pre o m post inf => by
+    simp [setSkip, AllSkip, allSkipList_setSkipList pre, allSkip_setSkip o, allSkipList_setSkipList m,
+      allSkipList_setSkipList post, allSkipList_setSkipList inf]
 theorem allSkipList_setSkipList : ∀ xs : List Expr, AllSkipList (setSkipList xs) = true
   | [] => by simp [setSkipList, AllSkipList]
   | x :: xs => by simp [setSkipList, AllSkipList, allSkip_setSkip x, allSkipList_setSkipList xs]
@@ -103,6 +112,10 @@ theorem refsBelow_setSkip (k : Nat) : ∀ e : Expr, RefsBelow k (setSkip e) = Re
   | .backtrack _ => by simp [setSkip]
   | .fail => by simp [setSkip]
   | .py _ => by simp [setSkip]
+  | .tagged e _ => by simp [setSkip, RefsBelow, refsBelow_setSkip k e]
+  | .optable pre o m post inf => by
+    simp [setSkip, RefsBelow, refsBelowList_setSkipList k pre, refsBelow_setSkip k o,
+      refsBelowList_setSkipList k m, refsBelowList_setSkipList k post, refsBelowList_setSkipList k inf]
 theorem refsBelowList_setSkipList (k : Nat) :
     ∀ xs : List Expr, RefsBelowList k (setSkipList xs) = RefsBelowList k xs
   | [] => by simp [setSkipList]
